@@ -112,6 +112,18 @@ CHECKS = {
          "Zones: block tag with an unbalanced quote, unterminated tag containing a quoted closer, multiline_tags=False with a quoted tag spanning a line "
          "break (TemplateSyntaxError or any faithful partition accepted).",
          "§4 C09"),
+ "C10": ("model_checking",
+         "differential of patched vs original Template internals on generated stock templates/families with the stock fragment of DjcSemantics.tla as third opinion + TLC-evaluated inlining law Run(Flat(P)) of DjcFamilies.tla on component programs split into extends/block/include families",
+         "(a) Seeded stock-Django templates and families (text, variables, if/for/with, include, extends/block/block.super, plus filter, autoescape, firstof, "
+         "cycle, a simple_tag, quoted arguments and malformed tags as opaque built-ins) are rendered by the patched Template class and by the ORIGINAL "
+         "compile_nodelist / render / tag_re captured before django_components was set up, with engine.debug on and off: output bytes, exception class and "
+         "message, Context layers and render_context depth must be identical, and equal to the TLA+ reference semantics on the modelled fragment. "
+         "(b) DjcFamilies.tla defines Flat(P), the hand resolution of extends / block / block.super / include, and TLC evaluates Run(Flat(P)) (checking that "
+         "Flat leaves no family node and is idempotent) for component programs whose page and component templates are split into base + child (+ include); "
+         "the real render of the family must equal it in both context modes.",
+         "multiline_tags=True makes sources with a newline between an opening delimiter and its closer a documented deviation (not generated); no quoted "
+         "closers in block tags; families are sampled (seeded), not exhaustively enumerated.",
+         "§4 C10"),
  "C11": ("model_checking",
          "TLC state machine ArgBinding.tla (CPython's binding algorithm: Declare*/Pass*) enumerating (signature, call) cases, each replayed three ways (literal CPython call, fast-path tag, fallback-path tag) + TLC trace validation of deeper random cases",
          "ArgBinding.tla models Python's argument binding as an online machine with invariants MachineAgreesWithDeclarative, EveryValueBoundOnce, "
